@@ -1035,8 +1035,8 @@ def replay(ctx, payload):
 
 
 CLAIM = dict(
-    text="Lean 4 proof on an executable model of create_metadata that explicit routing is the AIP-4222 fold (for every key the value sent is the capture of the LAST parameter with that key that matches with a non-empty capture; no header iff no parameter contributes; a parameter without template passes the field through), that the regex RoutingParameter builds captures exactly what a regex-free segment scanner of the template language captures (all templates with one named segment and `**` last, all newline-free values), that implicit routing lists exactly the variables of the primary http path, reads every reserved-word segment of a (dotted) field path from the suffixed attribute — so the attribute path is always a valid Python expression — and sends the raw name, and that the encoded header only contains URL-safe characters. Tie: T1 bridge of the field_headers regex and the reserved-name tables; T2 AST equality between the model regex and CPython's parse of the real to_regex().pattern, captures via Python re vs the Lean engine, field_headers/disambiguated, urlencode; T3 the header seen by loopback gRPC (sync, asyncio) and HTTP servers for calls through the emitted clients vs the model; a model-independent AIP-4222 reference resolver as oracle.",
+    text="Lean 4 proof on an executable model of create_metadata that explicit routing is the AIP-4222 fold (for every key the value sent is the capture of the LAST parameter with that key that matches with a non-empty capture; no header iff no parameter contributes; a parameter without template passes the field through and equals `{field=**}`), that the regex RoutingParameter builds captures exactly what a regex-free segment scanner of the template language captures (all templates with one named segment and `**` last, all newline-free values; also for templates without named segment), that implicit routing lists exactly the variables of the primary http path, reads every reserved-word segment of a (dotted) field path from the suffixed attribute — so the attribute path is always a valid Python expression — and sends the raw name, that an empty annotation and client-streaming explicit methods send nothing, that the schema-side RoutingRule.resolve agrees with the emitted chain when no value is empty, and that the encoded header only contains URL-safe characters. Tie: T1 bridge of the field_headers regex and the reserved-name tables; T2 AST equality between the model regex and CPython's parse of the real to_regex().pattern, captures via Python re vs the Lean engine, field_headers/disambiguated, RoutingRule.resolve, urlencode; T3 the header seen by loopback gRPC (sync, asyncio) and HTTP servers for programs of calls (request objects, dicts rebuilt from bytes, literal dicts, request=None; unary, server- and client-streaming; additional bindings; integer path variables) through the emitted clients of the standard and of the ads templates vs the model; a model-independent AIP-4222 reference resolver as oracle.",
     technique="Lean 4 theorems (induction over the parameter list; regex-engine proofs by induction over template segments) + translator bridge + differential T2/T3 against emitted clients on loopback servers",
     design="7.6",
-    note="Values with newlines, templates with `**` before the last segment, literals with regex metacharacters and client-streaming methods are outside the generated space (stated as assumptions). The four defects found by this check (dotted path variable with a keyword segment, keyword routing field, routing regex beyond the 200-character repr limit of re.Pattern, empty routing annotation) were repaired in /repo (findings/C06.json, fixed) and are regression inputs of the corpus and of the generator.",
+    note="Values with newlines, templates with `**` before the last segment, literals with regex metacharacters, enum/bool routing fields are outside the generated space (stated as assumptions; probes recorded in the evidence). Four defects found by this check were repaired in /repo (findings/C06.json, fixed) and are regression inputs. Open finding: the alternative (ads) templates ignore google.api.routing (their client never calls create_metadata).",
 )
